@@ -272,7 +272,12 @@ Definition is_tag_field (field_set : list (text * datatype)) (k : text) : bool :
 (* the sorted column list a field wildcard stands for, and the sorted tag list a GROUP BY wildcard stands for *)
 Definition ungrouped (has_dw : bool) (dims : list expr) (dim_set : list text) : list text :=
   if has_dw then dim_set else filter (fun k => negb (existsb (is_varref_named k) dims)) dim_set.
-Definition wild_columns (has_dw : bool) (dims : list expr) (field_set : list (text * datatype)) (dim_set : list text)
+(* a tag that a subquery selects and the statement groups by is left out like any other grouped tag (fix: RewriteFields
+   removes it from the field set together with the dimension) *)
+Definition drop_grouped_tags (has_dw : bool) (dims : list expr) (field_set : list (text * datatype)) : list (text * datatype) :=
+  if has_dw then field_set
+  else filter (fun kt => negb (dt_eqb (snd kt) DTag && existsb (is_varref_named (fst kt)) dims)) field_set.
+Definition wild_columns0 (has_dw : bool) (dims : list expr) (field_set : list (text * datatype)) (dim_set : list text)
   : list (text * datatype) :=
   match field_set with
   | [] => []
@@ -280,6 +285,8 @@ Definition wild_columns (has_dw : bool) (dims : list expr) (field_set : list (te
                                          else map (fun k => (k, DTag))
                                                 (filter (fun k => negb (is_tag_field field_set k)) (ungrouped has_dw dims dim_set))))
   end.
+Definition wild_columns (has_dw : bool) (dims : list expr) (field_set : list (text * datatype)) (dim_set : list text)
+  : list (text * datatype) := wild_columns0 has_dw dims (drop_grouped_tags has_dw dims field_set) dim_set.
 Definition wild_dimensions (has_dw : bool) (dims : list expr) (dim_set : list text) : list text :=
   sort_by text_ltb (ungrouped has_dw dims dim_set).
 
